@@ -8,14 +8,44 @@
 #pragma once
 #include "c02_vector.hpp"
 #include <cmath>
+#include <cstring>
 #include <limits>
 
 namespace c02
 {
+    // an element type whose == is not reflexive and not a comparison of bytes, without being floating point:
+    // value 2 is unequal to everything including itself (like NaN), values 0 and 4 are equal to each other (like +0/-0)
+    struct Odd
+    {
+        int v;
+        int pad; // never compared
+        friend bool operator==(const Odd &a, const Odd &b) { return a.v != 2 && b.v != 2 && (a.v == b.v || (a.v % 4 == 0 && b.v % 4 == 0)); }
+        friend bool operator!=(const Odd &a, const Odd &b) { return !(a == b); }
+        friend bool operator<(const Odd &a, const Odd &b) { return a.v != 2 && b.v != 2 && (a.v % 4 ? a.v : 0) < (b.v % 4 ? b.v : 0); }
+    };
+    template <class F> struct CmpAlphabet
+    {
+        static F get(int i)
+        {
+            const F a[4] = {(F) + 0.0, (F)-0.0, std::numeric_limits<F>::quiet_NaN(), (F)1.0};
+            return a[i];
+        }
+    };
+    template <> struct CmpAlphabet<Odd>
+    {
+        static Odd get(int i)
+        {
+            const Odd a[4] = {{0, 1}, {4, 2}, {2, 3}, {1, 4}};
+            return a[i];
+        }
+    };
+
+    // ==, !=, < of vectors of such elements against std::vector: every pair of sequences, every vector with
+    // ITSELF (same object, same storage) and with a copy of itself (equal contents, other storage)
     template <class Tr, class F> void float_compare_body(const string &variant)
     {
         using Vec = typename Tr::template vec<F>;
-        const F alphabet[4] = {(F) + 0.0, (F)-0.0, std::numeric_limits<F>::quiet_NaN(), (F)1.0};
+        const F alphabet[4] = {CmpAlphabet<F>::get(0), CmpAlphabet<F>::get(1), CmpAlphabet<F>::get(2), CmpAlphabet<F>::get(3)};
         static const char *an[4] = {"+0", "-0", "NaN", "1"};
         std::vector<std::vector<int>> seqs = {{}};
         for (size_t i = 0; i < seqs.size(); i++)
@@ -46,14 +76,42 @@ namespace c02
         std::vector<F> ma;
         build(seqs[ai], A, ma);
         uint64_t n = 0, nt = 0;
+        {
+            // a vector compared with itself: same object, same storage — still an element-wise comparison
+            const Vec &R = A;
+            bool self_special = !(ma == ma);
+            if ((A == A) != (ma == ma) || (R == A) != (ma == ma) || (A != R) != (ma != ma))
+            {
+                mc::violation(mc::fmt("C02.%s.compare.self_equality", variant.c_str()), "A=%s: A==A is %d, A!=A is %d; std::vector: %d, %d", name(seqs[ai]).c_str(), (int)(A == A),
+                              (int)(A != R), (int)(ma == ma), (int)(ma != ma));
+                return;
+            }
+            if constexpr (Tr::has_less)
+                if ((A < R) != (ma < ma))
+                {
+                    mc::violation(mc::fmt("C02.%s.compare.self_less", variant.c_str()), "A=%s: A<A is %d; std::vector: %d", name(seqs[ai]).c_str(), (int)(A < R), (int)(ma < ma));
+                    return;
+                }
+            n++;
+            if (self_special)
+                nt++;
+            // moved-from / never-filled vectors share the null buffer
+            Vec E1, E2;
+            std::vector<F> me1, me2;
+            if ((E1 == E2) != (me1 == me2) || (E1 != E2) != (me1 != me2) || (A == E1) != (ma == me1))
+            {
+                mc::violation(mc::fmt("C02.%s.compare.equality", variant.c_str()), "two empty vectors (or A=%s and an empty one) compare differently from std::vector", name(seqs[ai]).c_str());
+                return;
+            }
+        }
         for (auto &sb : seqs)
         {
             Vec B;
             std::vector<F> mb;
             build(sb, B, mb);
-            bool special = false;
+            bool special = false; // an element unequal to itself, or equal elements with different images
             for (size_t i = 0; i < std::min(ma.size(), mb.size()); i++)
-                if (std::isnan(ma[i]) || std::isnan(mb[i]) || (ma[i] == 0 && mb[i] == 0 && std::signbit(ma[i]) != std::signbit(mb[i])))
+                if (!(ma[i] == ma[i]) || !(mb[i] == mb[i]) || (ma[i] == mb[i] && memcmp(&ma[i], &mb[i], sizeof(F)) != 0))
                     special = true;
             n++;
             if (special)
@@ -224,6 +282,7 @@ namespace c02
         string n = Tr::name;
         mc::add_check("extra_" + n + "_double_compare", [n] { float_compare_body<Tr, double>(n + "_double"); });
         mc::add_check("extra_" + n + "_float_compare", [n] { float_compare_body<Tr, float>(n + "_float"); });
+        mc::add_check("extra_" + n + "_nonreflexive_compare", [n] { float_compare_body<Tr, Odd>(n + "_nonreflexive"); });
         mc::add_check("extra_" + n + "_throwing_elements", [n] { throwing_body<Tr>(n + "_tracked"); });
     }
 }
